@@ -191,6 +191,7 @@ int main(int argc, char **argv)
 		if (!sc) { fprintf(g_out, "HARNESS-ERROR unknown scenario %s\n", target); return 2; }
 		static Plan p; static RunResult r, r2;
 		int nviol = 0;
+		if (getenv("GMSIM_LOG")) g_sim.log = fopen(getenv("GMSIM_LOG"), "w");
 		for (uint64_t idx = from; idx < from + count; idx++) {
 			int K = sc->variants_per_base > 0 ? sc->variants_per_base : 1;
 			uint64_t rs = run_seed_of(seed, sc->name, idx / (uint64_t)K);
@@ -205,7 +206,9 @@ int main(int argc, char **argv)
 			if (r.violated || (g_leak_mode && leak_found(lk, sizeof(lk)))) { nviol++; dump_plan(&p); }
 			if (recheck && idx % recheck == 0) {
 				exec_plan(sc, &p, &r2);
-				if (r2.fp != r.fp || r2.violated != r.violated || strcmp(r2.vclass, r.vclass)) {
+				/* a run in which the library misbehaved may have consumed uninitialised
+				 * memory; its class must be stable, its exact bytes need not be */
+				if ((!r.violated && r2.fp != r.fp) || r2.violated != r.violated || strcmp(r2.vclass, r.vclass)) {
 					fprintf(g_out, "NONDET idx=%" PRIu64 " fp1=%016" PRIx64 " fp2=%016" PRIx64 " v1=%d v2=%d\n",
 						idx, r.fp, r2.fp, r.violated, r2.violated);
 					dump_plan(&p);
